@@ -1,0 +1,5 @@
+//go:build !verif
+
+package listeners
+
+func verifAt(string, string) {}
